@@ -240,12 +240,13 @@ def main():
     def finish():
         ev['wall_s'] = round(time.time() - t0, 2)
         ev['violations'] = len(violations)
-        write_json(os.path.join(VERIF, 'evidence', pid + '.json'), ev)
+        write_json(os.path.join(os.environ.get('VERIF_EVIDENCE_DIR', os.path.join(VERIF, 'evidence')), pid + '.json'), ev)
         if violations:
-            os.makedirs(os.path.join(VERIF, 'replays', pid), exist_ok=True)
+            rdir = os.path.join(os.environ.get('VERIF_REPLAY_DIR', os.path.join(VERIF, 'replays')), pid)
+            os.makedirs(rdir, exist_ok=True)
             for n, (kind, lines, detail, found) in enumerate(violations[:5]):
                 h = hashlib.sha256(('\n'.join(lines) + kind).encode()).hexdigest()[:12]
-                path = os.path.join(VERIF, 'replays', pid, h + '.ops')
+                path = os.path.join(rdir, h + '.ops')
                 with open(path, 'w') as f:
                     f.write('# property %s  kind %s\n' % (pid, kind))
                     for d in detail.split('\n'): f.write('# ' + d + '\n')
